@@ -16,6 +16,7 @@ import (
 	"github.com/tikv/pd/pkg/tempurl"
 	"go.etcd.io/etcd/clientv3"
 	"go.etcd.io/etcd/embed"
+	"go.uber.org/zap"
 )
 
 type Etcd struct {
@@ -25,8 +26,16 @@ type Etcd struct {
 	all []*clientv3.Client
 }
 
-func Start() (*Etcd, error) {
+func Start() (*Etcd, error) { return StartOpt(0, 0) }
+
+// StartOpt lets a driver lower etcd's tick/election timeouts (ms); etcd's minimum lease TTL is
+// 1.5 x election timeout, so real 1 s leases need election <= 600 ms.
+func StartOpt(tickMs, electionMs uint) (*Etcd, error) {
 	cfg := embed.NewConfig()
+	if tickMs > 0 {
+		cfg.TickMs = tickMs
+		cfg.ElectionMs = electionMs
+	}
 	cfg.Name = "verif_etcd"
 	dir, err := os.MkdirTemp("", "verif_etcd")
 	if err != nil {
@@ -98,7 +107,11 @@ type CtlKV struct {
 
 // NewClient returns a fresh client and its controller.
 func (e *Etcd) NewClient() (*clientv3.Client, *CtlKV, error) {
-	cli, err := clientv3.New(clientv3.Config{Endpoints: []string{e.ep}, DialTimeout: 5 * time.Second})
+	lc := zap.NewProductionConfig()
+	lc.Level = zap.NewAtomicLevelAt(zap.FatalLevel)
+	lc.OutputPaths = []string{"/dev/null"}
+	lc.ErrorOutputPaths = []string{"/dev/null"}
+	cli, err := clientv3.New(clientv3.Config{Endpoints: []string{e.ep}, DialTimeout: 5 * time.Second, LogConfig: &lc})
 	if err != nil {
 		return nil, nil, err
 	}
